@@ -10,6 +10,7 @@ PLAN = {
     "c01_parse": ["asan", "plain"],
     "c05_arith": ["asan"],
     "c16_lit": ["asan"],
+    "seq_eval": ["asan"],
 }
 
 
